@@ -64,6 +64,12 @@ _MISSING = object()
 POLY_OF_KEY: dict = {}  # fork key -> the polynomial compared with 0 (for witnesses)
 
 
+class KeysView(tuple):
+    """dict.keys() / dict.items(): iterates in insertion order, compares like a set."""
+
+    __hash__ = tuple.__hash__
+
+
 class GenResult:
     """What a generator function yields (evaluated eagerly)."""
 
@@ -374,7 +380,7 @@ class Evaluator:
                 else:
                     found = any(self.truth(self.equal(l, x)) for x in self.iterate(r, e.comparators[0]))
                 return found if isinstance(op, ast.In) else not found
-            if isinstance(op, (ast.Lt, ast.LtE, ast.Gt, ast.GtE)) and isinstance(l, (int, float)) and isinstance(r, (int, float)):
+            if isinstance(op, (ast.Lt, ast.LtE, ast.Gt, ast.GtE)) and ((isinstance(l, (int, float)) and isinstance(r, (int, float))) or (isinstance(l, str) and isinstance(r, str)) or (isinstance(l, tuple) and isinstance(r, tuple) and all(isinstance(x, (int, str)) for x in l + r))):
                 return {ast.Lt: l < r, ast.LtE: l <= r, ast.Gt: l > r, ast.GtE: l >= r}[type(op)]
             if isinstance(op, (ast.Is, ast.IsNot)):
                 same = l is r
@@ -399,11 +405,32 @@ class Evaluator:
             return v
         if v is None:
             return False
-        if isinstance(v, (str, tuple, list, int, set, frozenset, dict)):
+        if isinstance(v, (str, tuple, list, int, float, set, frozenset, dict)):
             return bool(v)
+        if isinstance(v, GenResult):
+            return bool(v.items)
+        if isinstance(v, Obj) and v.tag in ("match", "pattern", "Success", "Failure", "struct", "cdata"):
+            return True  # plain objects without __bool__/__len__ are true
+        if isinstance(v, Sym):
+            # an opaque number used as a condition: it may be zero or not
+            key = ("truthy", repr(v))
+            if key not in self.assume:
+                raise Fork(key)
+            return self.assume[key]
+        if isinstance(v, Poly):
+            if v.is_const():
+                return v.value() != 0
+            return not self.poly_compare(ast.Eq(), v, Poly.const(0))
         raise Uninterpretable(f"truth of {v!r}")
 
     def equal(self, l, r):
+        if isinstance(l, KeysView) or isinstance(r, KeysView):
+            if isinstance(l, (KeysView, set, frozenset)) and isinstance(r, (KeysView, set, frozenset)):
+                try:
+                    return set(l) == set(r)  # views compare as sets, whatever the insertion orders
+                except TypeError as ex:
+                    raise Uninterpretable("set comparison of unhashable model values") from ex
+            return False
         if (isinstance(l, Poly) or isinstance(r, Poly)) and is_num(l) and is_num(r):
             return self.poly_compare(ast.Eq(), Poly.of(l), Poly.of(r))
         if isinstance(l, Poly) or isinstance(r, Poly):
@@ -459,6 +486,8 @@ class Evaluator:
             self.facts.append((k, v.lo, v.hi, v.name))
             return [Poly.atom(f"{v.name}[{k}]")]
         if isinstance(v, (tuple, list, range)):
+            return list(v)
+        if isinstance(v, str):
             return list(v)
         if isinstance(v, (set, frozenset)):
             return sorted(v, key=repr)
@@ -627,11 +656,11 @@ class Evaluator:
         if isinstance(f, tuple) and f[0] == "dictmethod":
             d, m = f[1], f[2]
             if m == "keys":
-                return tuple(d.keys())
+                return KeysView(d.keys())
             if m == "values":
                 return tuple(d.values())
             if m == "items":
-                return tuple(d.items())
+                return KeysView(d.items())
             if m == "get":
                 ek = self.dict_find(d, args[0])
                 return d[ek] if ek is not _MISSING else (args[1] if len(args) > 1 else None)
@@ -722,7 +751,7 @@ class Evaluator:
 
     def run_function(self, node, args, kwargs, outer):
         env = dict(outer)
-        params = [a.arg for a in node.args.args]
+        params = [a.arg for a in list(getattr(node.args, "posonlyargs", [])) + list(node.args.args)]
         defaults = node.args.defaults
         for p, dflt in zip(params[len(params) - len(defaults):], defaults):
             env[p] = self.ev(dflt, outer)
